@@ -35,6 +35,8 @@ pub struct NetOpts {
     pub p_params: f64,
     /// lowest restriction speed [m/s]
     pub v_min: f64,
+    /// (fault injection only) allow two adjacent double gaps = coincident switch points
+    pub allow_adjacent_double: bool,
 }
 
 impl NetOpts {
@@ -57,6 +59,7 @@ impl NetOpts {
             speed_layout: rng.usize(0, 2),
             p_params: 0.3,
             v_min: 2.0,
+            allow_adjacent_double: false,
         }
     }
 }
@@ -329,7 +332,7 @@ pub fn network(rng: &mut Rng, o: &NetOpts) -> GenNet {
     let mut width = vec![1usize; ngaps];
     for g in 0..ngaps {
         let p = if g == 0 || g == ngaps - 1 { o.p_double_ends } else { o.p_double };
-        if ngaps >= 2 && rng.chance(p) && (g == 0 || width[g - 1] == 1) {
+        if ngaps >= 2 && rng.chance(p) && (g == 0 || width[g - 1] == 1 || o.allow_adjacent_double) {
             width[g] = 2;
         }
     }
